@@ -33,7 +33,7 @@ ASSUMPTIONS = ["the library RNG state (random + numpy.random) captured at the ch
 REAL = ["mystic solvers, SaveSolver/LoadSolver/__deepcopy__, dill pickling, monitors (incl. LoggingMonitor on real files)"]
 STUB = ["cost/constraint/penalty/callback peers", "file layer (SimFS buffering, crash/torn-write injection)",
         "process death (exception unwinding + object discard)", "library RNG state capture/restore"]
-LEVEL_TEXT = ("crash/interruption points are enumerated within each sampled configuration (exhaustively in thorough tier) and every "
+LEVEL_TEXT = ("crash/interruption points are enumerated within each sampled configuration (in the thorough tier all of them, up to 48 per path) and every "
               "restored continuation is checked for exact equality with the uninterrupted run at every later step")
 LEVEL_NOTE = ("trusts snapshot equality over the observable state listed in DESIGN.md 3.8; configurations are sampled from seeds; "
               "Powell's mid-step periodic dump and deepcopy's detached counter are listed known findings")
@@ -81,6 +81,10 @@ def gen_plan(seed, tier):
         if o['op'] == 'set' and o['what'] == 'evalmon' and rng.random() < 0.3:
             o['arg'] = dict(o['arg'], prefill=rng.randint(1, 4))
     plan['crash_frac'] = 1.0 if full else 0.34
+    if plan['solver'] == 'Powell' and plan['N'] > 7:
+        # (each Powell iteration is ~50 cost calls, each through the constraint loop when the ranges are tight)
+        plan['N'] = N = 7; ks = list(range(0, N)); plan['ks'] = ks if full else sorted(rng.sample(ks, max(1, len(ks) // 3)))
+        plan['midrun'] = [m for m in plan['midrun'] if m[0] < N]
     plan['crash_seed'] = rng.randrange(1 << 30)
     # 'solve' path: the run is one Solve(cost, **settings) with the solver-specific settings given ONCE as keywords and a
     # restart dump every generation; the process dies after generation k and the restored solver is continued by a bare
@@ -342,7 +346,9 @@ def _run(plan, run, violate, stats):
         points = [m for m in marks if m[0] == 'cost'] if 'periodic' in plan['paths'] else []
         tpoints = [m for m in marks if m[0] in ('fs.write', 'fs.close')] if 'torn' in plan['paths'] else []
         def sample(ps):
-            if plan['crash_frac'] >= 1.0 or len(ps) <= 2: return ps
+            cap = plan.get('crash_cap', 48)       # (Powell makes ~50 cost calls per iteration: every one of them a crash point is hours)
+            if plan['crash_frac'] >= 1.0 or len(ps) <= 2:
+                return ps if len(ps) <= cap else sorted(crng.sample(ps, cap), key=lambda m: (m[2], m[1]))
             n = max(1, int(len(ps) * plan['crash_frac'] / 4))
             return sorted(crng.sample(ps, min(len(ps), n)), key=lambda m: (m[2], m[1]))
         for (kind, nrel, j) in sample(points) + sample(tpoints):
